@@ -13,7 +13,7 @@ from refmodel import element_rules as R
 
 ENVELOPE = ('ISA', 'GS', 'ST', 'SE', 'GE', 'IEA', 'TA1')
 ELEMENT_KINDS = ['too_long', 'too_short', 'bad_code', 'bad_class', 'bad_date', 'bad_time', 'missing_required_ele',
-                 'not_used_ele', 'too_many_ele', 'too_many_comp', 'syntax_note']
+                 'not_used_ele', 'too_many_ele', 'too_many_comp', 'syntax_note', 'comp_in_simple']
 SEGMENT_KINDS = ['missing_required_seg', 'unknown_seg', 'misplaced_seg', 'seg_over_max', 'loop_over_max']
 PRIMARY = {'too_long': '5', 'too_short': '4', 'bad_code': '7', 'bad_class': '6', 'bad_date': '8', 'bad_time': '9',
            'missing_required_ele': '1', 'not_used_ele': '*', 'too_many_ele': '3', 'too_many_comp': '3'}
@@ -189,6 +189,12 @@ def enumerate_faults(m, doc, rng, charset, icvn, kinds=None, alphabet=None):
                         if el.min_len <= len(cand) <= el.max_len and not any(V.is_member(cand, t, charset, icvn) for t in types):
                             add('bad_time', cand, '9', 'new')
                             break
+                if 'comp_in_simple' in kinds and comp is None and (e, None) not in quals and el.max_len >= 2 and rng.random() < 0.3:
+                    # a simple element that holds a composite (the value contains the component separator)
+                    nv = copy.deepcopy(vals)
+                    set_val(nv, e, None, [cur[:max(1, len(cur) // 2)], 'B2'])
+                    out.append({'kind': 'comp_in_simple', 'line': line, 'ele': e, 'comp': None, 'op': 'replace', 'new_vals': nv, 'code': '6',
+                                'value': None, 'neutral': neutral, 'ref': el.data_ele, 'seg_id': seg['id']})
                 if 'missing_required_ele' in kinds and el.usage == 'R':
                     nv = copy.deepcopy(vals)
                     set_val(nv, e, c, '')
@@ -327,6 +333,14 @@ def segment_faults(m, doc, rng, kinds):
                 and line == same_node_lines[-1] and seg['id'] not in ('HL', 'LX', 'CLM', 'BHT'):
             out.append({'kind': 'seg_over_max', 'line': line, 'op': 'insert_after', 'new_segs': [copy.deepcopy(seg)], 'code': '5',
                         'neutral': True, 'seg_id': seg['id'], 'ele': None, 'comp': None, 'value': None, 'ref': None})
+            # the excess copy separated from the others by same-position siblings (e.g. REF*0F, REF*1L, REF*0F)
+            k = line + 1
+            while k < len(doc) and doc[k].get('parent_uid') == seg.get('parent_uid') and doc[k]['id'] not in ENVELOPE \
+                    and doc[k]['uid'] != seg['uid'] and node_of(m, doc[k]) is not None and node_of(m, doc[k]).pos == node.pos:
+                k += 1
+            if k > line + 1:
+                out.append({'kind': 'seg_over_max', 'line': k - 1, 'op': 'insert_after', 'new_segs': [copy.deepcopy(seg)], 'code': '5',
+                            'neutral': True, 'seg_id': seg['id'], 'ele': None, 'comp': None, 'value': None, 'ref': None, 'ctx': 'non-adjacent'})
     # unknown / misplaced segments: a few positions per set
     body = [k for k, s in enumerate(doc) if s['id'] not in ENVELOPE]
     ids_in_map = set(n.id for n in mapspec.walk(m) if n.kind == 'segment')
@@ -424,7 +438,14 @@ def loop_over_max_faults(m, doc):
                     inst.append((j, k))
                     j = k
                 ids = set(doc[k]['id'] for a, b in inst for k in range(a, b))
-                if len(inst) == mx and not (ids & {'HL', 'LX', 'CLM'}):
+                import docgen
+                a, b = inst[-1] if inst else (i, i + 1)
+                cur = node_of(m, doc[b - 1])
+                first = node_of(m, doc[a])
+                # the excess instance must be located as this loop from where it is appended (the map's own matching rule);
+                # after a nested loop another node may claim its opening segment
+                located = cur is not None and docgen.ref_search(cur, doc[a]['id'], _getter(doc[a]['vals'])) is first
+                if len(inst) == mx and not (ids & {'HL', 'LX', 'CLM'}) and located:
                     a, b = inst[-1]
                     out.append({'kind': 'loop_over_max', 'line': b - 1, 'op': 'insert_after', 'neutral': True, 'code': '4',
                                 'seg_id': doc[a]['id'], 'new_segs': [copy.deepcopy(x) for x in doc[a:b]], 'ele': None, 'comp': None,
